@@ -118,6 +118,8 @@ func genTracePlan(r *rand.Rand, quick bool) *plan.Plan {
 	k.PQS = &boolF
 	p := &plan.Plan{Knobs: k, Params: map[string]any{}}
 	nsvc := 2 + r.IntN(4)
+	// one run in three has a service whose resource carries no service.name attribute (stored as "")
+	anon := r.IntN(3) == 0
 	var traces []traceSpec
 	nTraces := 2 + r.IntN(14)
 	if r.IntN(8) == 0 {
@@ -145,6 +147,16 @@ func genTracePlan(r *rand.Rand, quick bool) *plan.Plan {
 	}
 	for i := range traces {
 		traces[i].Win = 1 + r.IntN(2)
+	}
+	if anon {
+		victim := traceServices[r.IntN(nsvc)]
+		for i := range traces {
+			for j := range traces[i].Spans {
+				if traces[i].Spans[j].Svc == victim {
+					traces[i].Spans[j].Svc = ""
+				}
+			}
+		}
 	}
 	p.Params["traces"] = traces
 	inc := plan.Incarnation{Boot: "full", SchedSeed: r.Uint64()>>11 | 1}
@@ -179,6 +191,12 @@ func genTracePlan(r *rand.Rand, quick bool) *plan.Plan {
 		for q := 0; q < nreq; q++ {
 			lo, hi := len(spans)*q/nreq, len(spans)*(q+1)/nreq
 			if hi > lo {
+				if r.IntN(2) == 0 {
+					// group the request's spans by service: few ResourceSpans entries with several spans each
+					part := append([]spanSpec(nil), spans[lo:hi]...)
+					sort.SliceStable(part, func(a, b int) bool { return part[a].Svc > part[b].Svc })
+					copy(spans[lo:hi], part)
+				}
 				b, _ := json.Marshal(spans[lo:hi])
 				inc.Ops = append(inc.Ops, plan.Op{Kind: "otlp_traces", Body: string(b)})
 			}
